@@ -51,10 +51,10 @@ Msgs == {
 \* several types, one with RDATA its type rejects: what the typed views
 \* filter on.  An RFC 2136 update looks like the second one.
 MixedMsgs == {
-  \* answer: A CH / A IN / A IN with three octets / CNAME HS; authority: A HS
+  \* answer: A CH / A IN with three octets / A IN / CNAME HS; authority: A HS
   Hdr(33792, 1, 4, 1, 0) \o QA \o RecO(<<192, 12>>, 1, 3, 0, 60, <<192, 0, 2, 1>>, 0)
-     \o RecO(<<192, 12>>, 1, 1, 0, 61, <<192, 0, 2, 2>>, 0)
-     \o RecO(<<192, 12>>, 1, 1, 0, 62, <<192, 0, 2>>, 0)
+     \o RecO(<<192, 12>>, 1, 1, 0, 61, <<192, 0, 2>>, 0)
+     \o RecO(<<192, 12>>, 1, 1, 0, 62, <<192, 0, 2, 3>>, 0)
      \o RecO(<<192, 12>>, 5, 4, 0, 63, <<1, 98, 0>>, 0)
      \o RecO(<<1, 98, 0>>, 1, 4, 0, 64, <<192, 0, 2, 5>>, 0),
   \* answer: CNAME CH / MX IN with trailing junk; additional: A NONE / A IN / OPT / A ANY
